@@ -140,7 +140,7 @@ theorem setRel_congr {m : MapMode} {r r' : Nat → Nat → Bool} (xs ys : List N
 theorem relBody_congr (rc : RelCfg) {r r' : Nat → Nat → Bool} (n m : Node)
     (h : ∀ x ∈ children n, ∀ y, r x y = r' x y) : relBody rc r n m = relBody rc r' n m := by
   cases n <;> cases m <;> simp only [relBody, children] at h ⊢
-  case list.list xs ys => exact all2_congr _ _ h
+  case list.list xs _ ys _ => exact all2_congr _ _ h
   case pair.pair a b c d => rw [h a (by simp), h b (by simp)]
   case vec.vec xs ys => exact all2_congr _ _ h
   case mvec.mvec xs ys => exact all2_congr _ _ h
